@@ -32,6 +32,13 @@ Theorem C08_steps_agree : forall (s : state) (ae : bool),
   fA f = tA s' /\ fB f = tB s' /\ farch f = arch s' /\ gA f = ∅ /\ gB f = ∅ /\ ftmp f = None.
 Proof. intros s ae Hcn. exact (steps_agree_lemma Hh dge cname kle s ae Hcn). Qed.
 
+(** The run model never stops on an I/O error (every source of a copy exists), so
+    the archive save is always part of the step list and the new archive is [Some z]. *)
+Theorem C08_run_never_io_error : forall (s : state),
+  (run s).1.2 <> ExitIoError /\
+  exists z, arch (run s).1.1 = Some z /\ forall ae, archp s ae = arch_steps ae z.
+Proof. intros s. destruct (run_never_io_error Hh dge cname kle s) as (A & B & C). eauto. Qed.
+
 (** 2. Ordering.  The step list is a sequence of whole-file blocks (each copy =
     stage, data, fsync, rename of one destination, nothing in between; or one
     unlink), then the archive save or nothing. *)
@@ -118,6 +125,7 @@ Proof. intros s ae k Hcf. exact (proj2 (recovery_nc Hh dge cname kle s ae k Hcf)
 End C08.
 
 Print Assumptions C08_steps_agree.
+Print Assumptions C08_run_never_io_error.
 Print Assumptions C08_steps_structure.
 Print Assumptions C08_renames_follow_fsync.
 Print Assumptions C08_archive_steps_last.
